@@ -1,5 +1,6 @@
 import HypatiaModel.Concurrency
 import HypatiaModel.ConcurrencyIndex
+import HypatiaModel.ConcurrencyText
 import Driver.Sess
 namespace Driver.ConcurrencyS
 open Hyp Hyp.Concurrency Hyp.CIdx
@@ -13,7 +14,9 @@ operations run in transaction 0, `a` / `b` run as transactions 1 / 2 on the snap
 Document specification of the harness (`props/c09.py: make_doc`): `f kw c t u` with `-` = attribute
 absent; `f` = field value, `kw` = bit mask over keywords 0‥4, `c` = facet path(s) out of the six
 configured facets `a, a:b, a:b:c, d, d:e, f` (numbered 0‥5): path `c % 6`, and `(c / 7) % 6` when
-`c ≥ 7`; `t`, `u` = text seeds (not modelled at object level).
+`c ≥ 7`; `t`, `u` = text seeds for the Okapi (`i3`) and the cosine (`i4`) text index: the words of
+the text as `make_doc` builds it, numbered 0‥9 (`apple` … `jade`) and 100 + n (`w%03d`); none is a
+stop word and all are lower case, so the lexicon's pipeline returns them unchanged.
 -/
 
 def alt (l : CLog) (a b : Bool) : String :=
@@ -23,6 +26,7 @@ def alt (l : CLog) (a b : Bool) : String :=
 structure St where
   log : CLog := {}
   thr : Nat := 2
+  cutoff : Nat := 10
   present : List String := ["i0", "i1", "i2", "i3", "i4"]
   begun : Bool := false
   f0 : FTx Int := {}
@@ -34,6 +38,12 @@ structure St where
   c0 : KTx Int := {}
   cA : KTx Int := {}
   cB : KTx Int := {}
+  t0 : TTx Nat TextFreq.SWt := {}
+  tA : TTx Nat TextFreq.SWt := {}
+  tB : TTx Nat TextFreq.SWt := {}
+  u0 : TTx Nat TextFreq.SWt := {}
+  uA : TTx Nat TextFreq.SWt := {}
+  uB : TTx Nat TextFreq.SWt := {}
 
 /-- the prefix expansion of facet path `j` (indices into `a, a:b, a:b:c, d, d:e, f`) -/
 def facetPrefixes (j : Nat) : List Int :=
@@ -51,27 +61,47 @@ structure DocSpec where
   f : Option Int
   k : Option (List Int)
   c : Option (List Int)          -- candidates (prefix-expanded)
+  t : Option (List Nat)          -- tokens of the Okapi index's text
+  u : Option (List Nat)          -- tokens of the cosine index's text
+
+/-- the words of `make_doc`'s text for seed `x` -/
+def textWords (x : Nat) : List Nat :=
+  if x ≥ 1000 then (List.range (x - 1000)).map (100 + ·) ++ [0]
+  else
+    let n := x % 6
+    let ws := (List.range n).map (fun j => (x / 6 + j * (1 + x % 3)) % 10)
+    if x ≥ 100 then ws ++ [100 + x % 80, 100 + (x * 7) % 80] else ws
 
 def docSpec? (toks : List String) : Option DocSpec :=
   match toks with
-  | f :: k :: c :: _ => do
+  | f :: k :: c :: rest => do
     let f ← optDash f
     let k ← optDash k
     let c ← optDash c
+    let t ← match rest with | t :: _ => optDash t | [] => some none
+    let u ← match rest with | _ :: u :: _ => optDash u | _ => some none
     let kws := k.map (fun m => (List.range 5).filterMap (fun i =>
       if (m.toNat >>> i) % 2 = 1 then some (Int.ofNat i) else none))
     let cs := c.map (fun c =>
       let n := c.toNat
       facetPrefixes (n % 6) ++ (if n ≥ 7 then facetPrefixes ((n / 7) % 6) else []))
-    pure { f := f, k := kws, c := cs }
+    pure { f := f, k := kws, c := cs, t := t.map (fun x => textWords x.toNat), u := u.map (fun x => textWords x.toNat) }
   | _ => none
 where
   optDash (t : String) : Option (Option Int) := if t = "-" then some none else (t.toInt?).map some
 
-/-- one catalog operation on the three modelled indexes of one transaction -/
-def applyOp (thr : Nat) (x : FTx Int × KTx Int × KTx Int) (toks : List String) :
-    Option (FTx Int × KTx Int × KTx Int) :=
-  let (f, k, c) := x
+abbrev XTx := TTx Nat TextFreq.SWt
+
+/-- the five modelled indexes of one transaction -/
+structure Txs where
+  f : FTx Int := {}
+  k : KTx Int := {}
+  c : KTx Int := {}
+  t : XTx := {}
+  u : XTx := {}
+
+/-- one catalog operation on the modelled indexes of one transaction -/
+def applyOp (thr cutoff : Nat) (x : Txs) (toks : List String) : Option Txs :=
   let cfg : KCfg := { thr := thr }
   match toks with
   | op :: d :: spec =>
@@ -79,10 +109,15 @@ def applyOp (thr : Nat) (x : FTx Int × KTx Int × KTx Int) (toks : List String)
     | none => none
     | some d =>
       if op = "unindex" then
-        some (f.unindexDoc d, k.unindexDoc d, c.unindexDoc d)
+        some { f := x.f.unindexDoc d, k := x.k.unindexDoc d, c := x.c.unindexDoc d,
+               t := TTx.unindexDoc (TextFreq.okapiCfg cutoff) x.t d,
+               u := TTx.unindexDoc (TextFreq.cosineCfg cutoff) x.u d }
       else if op = "index" ∨ op = "reindex" then
         match docSpec? spec with
-        | some s => some (f.indexDoc d s.f, KTx.indexDoc cfg k d s.k, KTx.facetIndexDoc allFacets c d s.c)
+        | some s => some { f := x.f.indexDoc d s.f, k := KTx.indexDoc cfg x.k d s.k,
+                           c := KTx.facetIndexDoc allFacets x.c d s.c,
+                           t := TTx.indexDoc (TextFreq.okapiCfg cutoff) x.t d s.t,
+                           u := TTx.indexDoc (TextFreq.cosineCfg cutoff) x.u d s.u }
         | none => none
       else none
   | _ => none
@@ -102,6 +137,16 @@ def obsK (name : String) (h : KHeap Int) : String :=
   let rev := showPairs (h.rev.map (fun e => (e.1, ",".intercalate ((sortInts e.2).map toString))))
   let fwd := showPairs (h.fwd.map (fun e => (e.1, showSet (h.posting e.1))))
   s!"{name} rev={rev} ni={showSet h.ni} fwd={fwd} inv={if h.len = h.rev.length then 1 else 0}"
+
+/-- a text index in the vocabulary of its public API: the words of every document, the
+not-indexed set, the three counts, and for every word that has a posting the documents in it -/
+def obsT (name : String) (h : THeap Nat TextFreq.SWt) : String :=
+  let word (i : Nat) : String := match AMap.get h.words i with | some w => toString w | none => s!"?{i}"
+  let rev := showPairs (h.docwords.map (fun e => (e.1, ",".intercalate (e.2.map word))))
+  let fwd := showPairs (h.wordinfo.map (fun e =>
+    (match AMap.get h.words e.1 with | some w => Int.ofNat w | none => -1 - Int.ofNat e.1,
+     showSet (AMap.keys (h.posting e.1)))))
+  s!"{name} rev={rev} ni={showSet h.ni} ic={h.indexedCount} wc={h.wordCount} lwc={h.lexCount} fwd={fwd}"
 
 def showObj : ObjId → String
   | .fwd => "fwd" | .rev => "rev" | .ni => "ni" | .len => "len"
@@ -126,45 +171,83 @@ def conflictsK (base : KHeap Int) (a b : KTx Int) : List String :=
     chk (.post e.1) ((mergeObj resolvePosting (dirty a.writes (.post e.1)) (dirty b.writes (.post e.1)) e.2
       ((AMap.get a.heap.post e.1).getD e.2) ((AMap.get b.heap.post e.1).getD e.2)).map fun _ => ()))
 
+def conflictsT (base : THeap Nat TextFreq.SWt) (a b : XTx) : List String :=
+  let da := tdirty a.writes
+  let db := tdirty b.writes
+  let chk (n : String) (r : Option Unit) : List String := if r.isNone then [n] else []
+  chk "wids" ((mergeObj resolveMap (da .wids) (db .wids) base.wids a.heap.wids b.heap.wids).map fun _ => ()) ++
+  chk "words" ((mergeObj resolveMap (da .words) (db .words) base.words a.heap.words b.heap.words).map fun _ => ()) ++
+  chk "wordinfo" ((mergeObj resolveMap (da .wordinfo) (db .wordinfo) base.wordinfo a.heap.wordinfo b.heap.wordinfo).map fun _ => ()) ++
+  chk "docwords" ((mergeObj resolveMap (da .docwords) (db .docwords) base.docwords a.heap.docwords b.heap.docwords).map fun _ => ()) ++
+  chk "docweight" ((mergeObj resolveMap (da .docweight) (db .docweight) base.docweight a.heap.docweight b.heap.docweight).map fun _ => ()) ++
+  chk "ni" ((mergeObj resolveSet (da .ni) (db .ni) base.ni a.heap.ni b.heap.ni).map fun _ => ()) ++
+  base.tree.flatMap (fun e =>
+    chk s!"tree({e.1.1},{e.1.2})" ((mergeObj resolveMap (da (.tree e.1)) (db (.tree e.1)) e.2
+      ((AMap.get a.heap.tree e.1).getD e.2) ((AMap.get b.heap.tree e.1).getD e.2)).map fun _ => ()))
+
+def txsA (st : St) : Txs := { f := st.fA, k := st.kA, c := st.cA, t := st.tA, u := st.uA }
+def txsB (st : St) : Txs := { f := st.fB, k := st.kB, c := st.cB, t := st.tB, u := st.uB }
+def txs0 (st : St) : Txs := { f := st.f0, k := st.k0, c := st.c0, t := st.t0, u := st.u0 }
+
 /-- the transactions in commit order -/
-def ordered (st : St) : Option ((FTx Int × KTx Int × KTx Int) × (FTx Int × KTx Int × KTx Int)) :=
+def ordered (st : St) : Option (Txs × Txs) :=
   match st.log.order with
-  | [.a, .b] => some ((st.fA, st.kA, st.cA), (st.fB, st.kB, st.cB))
-  | [.b, .a] => some ((st.fB, st.kB, st.cB), (st.fA, st.kA, st.cA))
+  | [.a, .b] => some (txsA st, txsB st)
+  | [.b, .a] => some (txsB st, txsA st)
   | _ => none
 
 /-- object-level outcome of the second commit: conflicting objects per present index, or the merged heaps -/
 def merged (st : St) : Option (List String × String × String) :=
   match ordered st with
   | none => none
-  | some ((f1, k1, c1), (f2, k2, c2)) =>
+  | some (x1, x2) =>
     let has (n : String) : Bool := st.present.contains n
-    let mf := commitSecond st.f0.heap f1 f2
-    let mk := commitSecondK st.k0.heap k1 k2
-    let mc := commitSecondK st.c0.heap c1 c2
+    let mf := commitSecond st.f0.heap x1.f x2.f
+    let mk := commitSecondK st.k0.heap x1.k x2.k
+    let mc := commitSecondK st.c0.heap x1.c x2.c
+    let mt := commitSecondT st.t0.heap x1.t x2.t
+    let mu := commitSecondT st.u0.heap x1.u x2.u
     let confl :=
-      (if has "i0" ∧ mf.isNone then (conflictsF st.f0.heap f1 f2).map ("i0:" ++ ·) else []) ++
-      (if has "i1" ∧ mk.isNone then (conflictsK st.k0.heap k1 k2).map ("i1:" ++ ·) else []) ++
-      (if has "i2" ∧ mc.isNone then (conflictsK st.c0.heap c1 c2).map ("i2:" ++ ·) else [])
+      (if has "i0" ∧ mf.isNone then (conflictsF st.f0.heap x1.f x2.f).map ("i0:" ++ ·) else []) ++
+      (if has "i1" ∧ mk.isNone then (conflictsK st.k0.heap x1.k x2.k).map ("i1:" ++ ·) else []) ++
+      (if has "i2" ∧ mc.isNone then (conflictsK st.c0.heap x1.c x2.c).map ("i2:" ++ ·) else []) ++
+      (if has "i3" ∧ mt.isNone then (conflictsT st.t0.heap x1.t x2.t).map ("i3:" ++ ·) else []) ++
+      (if has "i4" ∧ mu.isNone then (conflictsT st.u0.heap x1.u x2.u).map ("i4:" ++ ·) else [])
     let both := " ;; ".intercalate (
       (if has "i0" then [match mf with | some h => obsF h | none => "i0 conflict"] else []) ++
       (if has "i1" then [match mk with | some h => obsK "i1" h | none => "i1 conflict"] else []) ++
-      (if has "i2" then [match mc with | some h => obsK "i2" h | none => "i2 conflict"] else []))
+      (if has "i2" then [match mc with | some h => obsK "i2" h | none => "i2 conflict"] else []) ++
+      (if has "i3" then [match mt with | some h => obsT "i3" h | none => "i3 conflict"] else []) ++
+      (if has "i4" then [match mu with | some h => obsT "i4" h | none => "i4 conflict"] else []))
     let first := " ;; ".intercalate (
-      (if has "i0" then [obsF f1.heap] else []) ++
-      (if has "i1" then [obsK "i1" k1.heap] else []) ++
-      (if has "i2" then [obsK "i2" c1.heap] else []))
+      (if has "i0" then [obsF x1.f.heap] else []) ++
+      (if has "i1" then [obsK "i1" x1.k.heap] else []) ++
+      (if has "i2" then [obsK "i2" x1.c.heap] else []) ++
+      (if has "i3" then [obsT "i3" x1.t.heap] else []) ++
+      (if has "i4" then [obsT "i4" x1.u.heap] else []))
     some (confl, both, first)
 
 def showLoc : Loc Int → String
   | .fwd v => s!"fwd[{v}]" | .rev d => s!"rev[{d}]" | .ni d => s!"ni[{d}]" | .len => "len"
   | .post o d => s!"post({o.1},{o.2})[{d}]" | .whole o => s!"post({o.1},{o.2})[*]"
 
+def showTLoc : TLoc Nat → String
+  | .wids w => s!"wids[{w}]" | .words i => s!"words[{i}]" | .lexCount => "lexCount"
+  | .wi i => s!"wordinfo[{i}]" | .wiRoot => "wordinfo-root"
+  | .docwords d => s!"docwords[{d}]" | .docweight d => s!"docweight[{d}]"
+  | .wordCount => "wordCount" | .indexedCount => "indexedCount" | .totalDocLen => "totalDocLen"
+  | .ni d => s!"ni[{d}]" | .tree o d => s!"tree({o.1},{o.2})[{d}]" | .whole o => s!"tree({o.1},{o.2})[*]"
+
+def showStep (s : TStep Nat) : String := (if s.notify then "" else "~") ++ showTLoc s.loc
+
 def withOp (st : St) (who : String) (toks : List String) : Option St :=
   match who with
-  | "base" => (applyOp st.thr (st.f0, st.k0, st.c0) toks).map fun (f, k, c) => { st with f0 := f, k0 := k, c0 := c }
-  | "a" => (applyOp st.thr (st.fA, st.kA, st.cA) toks).map fun (f, k, c) => { st with fA := f, kA := k, cA := c }
-  | "b" => (applyOp st.thr (st.fB, st.kB, st.cB) toks).map fun (f, k, c) => { st with fB := f, kB := k, cB := c }
+  | "base" => (applyOp st.thr st.cutoff (txs0 st) toks).map fun x =>
+      { st with f0 := x.f, k0 := x.k, c0 := x.c, t0 := x.t, u0 := x.u }
+  | "a" => (applyOp st.thr st.cutoff (txsA st) toks).map fun x =>
+      { st with fA := x.f, kA := x.k, cA := x.c, tA := x.t, uA := x.u }
+  | "b" => (applyOp st.thr st.cutoff (txsB st) toks).map fun x =>
+      { st with fB := x.f, kB := x.k, cB := x.c, tB := x.t, uB := x.u }
   | _ => none
 
 def addLog (st : St) (who : String) (k : Nat) : St :=
@@ -182,13 +265,16 @@ def commitLine (st : St) : String :=
 def step (st : St) (toks : List String) : St × String :=
   match toks with
   | ["cfg", "thr", n] => match n.toNat? with | some n => ({ st with thr := n }, "ok") | none => (st, "bad-op")
+  | ["cfg", "cutoff", n] => match n.toNat? with | some n => ({ st with cutoff := n }, "ok") | none => (st, "bad-op")
   | "cfg" :: "present" :: ps => ({ st with present := ps }, "ok")
   | "cfg" :: _ => (st, "ok")
   | ["begin"] =>
     ({ st with begun := true,
                fA := FTx.start st.f0.heap 1, fB := FTx.start st.f0.heap 2,
                kA := KTx.start st.k0.heap 1, kB := KTx.start st.k0.heap 2,
-               cA := KTx.start st.c0.heap 1, cB := KTx.start st.c0.heap 2 }, "ok")
+               cA := KTx.start st.c0.heap 1, cB := KTx.start st.c0.heap 2,
+               tA := TTx.start st.t0.heap 1, tB := TTx.start st.t0.heap 2,
+               uA := TTx.start st.u0.heap 1, uB := TTx.start st.u0.heap 2 }, "ok")
   | ["commit", "a"] => let st := { st with log := { st.log with order := st.log.order ++ [.a] } }; (st, commitLine st)
   | ["commit", "b"] => let st := { st with log := { st.log with order := st.log.order ++ [.b] } }; (st, commitLine st)
   | ["check"] =>
@@ -198,10 +284,12 @@ def step (st : St) (toks : List String) : St × String :=
       | some (_, both, first) => " @@ " ++ both ++ " @@ " ++ first
       | none => ""
     (st, eff ++ obj)
-  | ["footprint", who] =>      -- diagnostics: the write sets of a transaction
-    let (f, k, c) := if who = "a" then (st.fA, st.kA, st.cA) else (st.fB, st.kB, st.cB)
-    (st, "i0 " ++ " ".intercalate (f.writes.reverse.map showLoc) ++ " ;; i1 " ++
-         " ".intercalate (k.writes.reverse.map showLoc) ++ " ;; i2 " ++ " ".intercalate (c.writes.reverse.map showLoc))
+  | ["footprint", who] =>      -- diagnostics: the write sets (text: all mutation steps, `~` = plain) of a transaction
+    let x := if who = "a" then txsA st else if who = "b" then txsB st else txs0 st
+    (st, "i0 " ++ " ".intercalate (x.f.writes.reverse.map showLoc) ++ " ;; i1 " ++
+         " ".intercalate (x.k.writes.reverse.map showLoc) ++ " ;; i2 " ++ " ".intercalate (x.c.writes.reverse.map showLoc) ++
+         " ;; i3 " ++ " ".intercalate (x.t.log.reverse.map showStep) ++
+         " ;; i4 " ++ " ".intercalate (x.u.log.reverse.map showStep))
   | who :: k :: rest =>
     if who = "base" ∨ who = "a" ∨ who = "b" then
       match k.toNat? with
